@@ -11,6 +11,7 @@ import TetlProofs.C04.Search
 import TetlProofs.C04.Plus
 import TetlProofs.C04.EraseIf
 import TetlProofs.C04.Alias
+import TetlProofs.C04.Replace
 import TetlProofs.C08.Props
 namespace Tetl.C04.Props
 open Tetl Tetl.C04
@@ -482,6 +483,51 @@ example : (SelfOp.insert 1 (.ptr 1 1)).arg.isSelfForm = true ∧ (SelfOp.insert 
     ("aa".rfind("a") gives 0, std 1.)  With an explicit pos the member is the C08 model of `rfind`. -/
 theorem rfind_default_counterexample :
     C08.rfind [97, 97] [97] 0 ≠ .ok (C08.Spec.rfind [97, 97] [97] NPOS) := by decide
+
+/-- F-C04-replace-overwrites-only, what the family does: on well-ordered ranges `replace` overwrites the first
+    `min (l - f) (sl - sf)` characters of `[f, l)` with the front of the replacement and keeps size and terminator (no access
+    outside the buffer). -/
+theorem replace_overwrites {s : Str} {cs : List Nat} (h : Rep s cs) (f l : Nat) (arr : Units) (sf sl : Nat)
+    (hfl : f ≤ l) (hl : l ≤ cs.length) (hs : sf ≤ sl) (hsl : sl ≤ arr.length) :
+    ∃ s', s.replaceCore f l arr sf sl = .ok s' ∧ s'.cap = s.cap ∧
+      Rep s' (cs.take f ++ Spec.seg arr sf (min (l - f) (sl - sf)) ++ cs.drop (f + min (l - f) (sl - sf))) :=
+  replaceCore_rep h f l arr sf sl hfl hl hs hsl
+
+example : (1 : Nat) ≤ 2 ∧ 2 ≤ [97, 98, 99].length ∧ (0 : Nat) ≤ 3 ∧ 3 ≤ [120, 121, 122].length := by decide
+
+/-- `replace(pos, count, str)` outside the excluded class (replacement length = replaced length, `count <= size() - pos`):
+    the std result. -/
+theorem replace_partial {s : Str} {cs : List Nat} (h : Rep s cs) (pos count : Nat) (arr : Units) (sf sl : Nat)
+    (hp : pos ≤ cs.length) (hc : count ≤ cs.length - pos) (hs : sf ≤ sl) (hsl : sl ≤ arr.length) (hlen : sl - sf = count) :
+    ∃ s', s.replaceA pos count arr sf sl = .ok s' ∧ s'.cap = s.cap ∧
+      Rep s' (Spec.replace cs pos count (Spec.seg arr sf (sl - sf))) :=
+  replaceA_partial h pos count arr sf sl hp hc hs hsl hlen
+
+/-- `replace(pos, count, s, count2)`, `replace(pos, count, s)`, `replace(pos, count, str, pos2, count2)`, same class. -/
+theorem replace_ptr_partial {s : Str} {cs : List Nat} (h : Rep s cs) (pos count : Nat) (arr : Units) (sf sl : Nat)
+    (hp : pos ≤ cs.length) (hc : count ≤ cs.length - pos) (hs : sf ≤ sl) (hsl : sl ≤ arr.length) (hlen : sl - sf = count) :
+    ∃ s', s.replaceB pos count arr sf sl = .ok s' ∧ s'.cap = s.cap ∧
+      Rep s' (Spec.replace cs pos count (Spec.seg arr sf (sl - sf))) :=
+  replaceB_partial h pos count arr sf sl hp hc hs hsl hlen
+
+example : (1 : Nat) ≤ [97, 98, 99].length ∧ (2 : Nat) ≤ [97, 98, 99].length - 1 ∧ (1 : Nat) ≤ 3 ∧
+    3 ≤ [120, 121, 122].length ∧ 3 - 1 = 2 := by decide
+
+/-- `replace(first, last, str|s|s,count2)`, same class. -/
+theorem replace_iter_partial {s : Str} {cs : List Nat} (h : Rep s cs) (first last : Nat) (arr : Units) (sf sl : Nat)
+    (h1 : first ≤ last) (h2 : last ≤ cs.length) (hs : sf ≤ sl) (hsl : sl ≤ arr.length) (hlen : sl - sf = last - first) :
+    ∃ s', s.replaceIt first last arr sf sl = .ok s' ∧ s'.cap = s.cap ∧
+      Rep s' (Spec.replace cs first (last - first) (Spec.seg arr sf (sl - sf))) :=
+  replaceIt_partial h first last arr sf sl h1 h2 hs hsl hlen
+
+/-- `replace(first, last, count2, ch)`, same class. -/
+theorem replace_iter_fill_partial {s : Str} {cs : List Nat} (h : Rep s cs) (first last count2 ch : Nat)
+    (h1 : first ≤ last) (h2 : last ≤ cs.length) (hlen : count2 = last - first) :
+    ∃ s', s.replaceItFill first last count2 ch = .ok s' ∧ s'.cap = s.cap ∧
+      Rep s' (Spec.replace cs first (last - first) (List.replicate count2 ch)) :=
+  replaceItFill_partial h first last count2 ch h1 h2 hlen
+
+example : (0 : Nat) ≤ 2 ∧ 2 ≤ [97, 98, 99].length ∧ (2 : Nat) = 2 - 0 := by decide
 
 /-- F-C04-replace-overwrites-only: `replace(pos, count, str)` overwrites in place and keeps the size:
     "ab".replace(0, 1, "xyz") leaves "xb" (std: "xyzb"). -/
